@@ -271,11 +271,54 @@ theorem exec_addSpImm (s : State) (d : Reg) (imm : Nat) : exec s (.addSpImm d im
 theorem exec_incSp (s : State) (imm : Nat) : exec s (.incSp imm) = ({ s with sp := s.sp + BitVec.ofNat 32 imm } : State).next := id rfl
 theorem exec_decSp (s : State) (imm : Nat) : exec s (.decSp imm) = ({ s with sp := s.sp - BitVec.ofNat 32 imm } : State).next := id rfl
 
+theorem exec_push_lr (s : State) (regs : List Reg) :
+    exec s (.push regs true) = match s.storeMany (s.sp - BitVec.ofNat 32 (4 * (regs.length + 1))).toNat (regs.map s.get ++ [s.lr]) with
+      | .error f => s.raise f
+      | .ok s' => ({ s' with sp := s.sp - BitVec.ofNat 32 (4 * (regs.length + 1)) } : State).next := by
+  show s.fin ((s.storeMany (s.sp - BitVec.ofNat 32 (4 * (regs.map s.get ++ (if true then [s.lr] else [])).length)).toNat
+    (regs.map s.get ++ (if true then [s.lr] else []))).map fun s' => { s' with sp := s.sp - BitVec.ofNat 32 (4 * (regs.map s.get ++ (if true then [s.lr] else [])).length) }) = _
+  simp only [if_true, List.length_append, List.length_map, List.length_cons, List.length_nil, Nat.zero_add]
+  cases s.storeMany (s.sp - BitVec.ofNat 32 (4 * (regs.length + 1))).toNat (regs.map s.get ++ [s.lr]) <;> rfl
+
+theorem exec_pop_pc (s : State) (regs : List Reg) :
+    exec s (.pop regs true) = match s.loadMany s.sp.toNat regs with
+      | .error f => s.raise f
+      | .ok s1 => match s1.load (s.sp.toNat + 4 * regs.length) with
+        | .error f => s.raise f
+        | .ok t => ({ s1 with sp := BitVec.ofNat 32 (s.sp.toNat + 4 * regs.length + 4) } : State).leave t := by
+  show (match s.loadMany s.sp.toNat regs with
+    | .error f => s.raise f
+    | .ok s1 => if true then _ else _) = _
+  cases s.loadMany s.sp.toNat regs <;> rfl
+
+theorem add_sub_lit (x : Word) (a b : Nat) (h : b < a) : x + BitVec.ofNat 32 a - BitVec.ofNat 32 b = x + BitVec.ofNat 32 (a - b) := by
+  apply BitVec.eq_of_toNat_eq
+  simp only [BitVec.toNat_sub, BitVec.toNat_add, BitVec.toNat_ofNat]
+  omega
+theorem add_sub_lit_self (x : Word) (a : Nat) : x + BitVec.ofNat 32 a - BitVec.ofNat 32 a = x := by
+  apply BitVec.eq_of_toNat_eq
+  simp only [BitVec.toNat_sub, BitVec.toNat_add, BitVec.toNat_ofNat]
+  have := x.isLt
+  omega
+theorem add_add_lit (x : Word) (a b : Nat) : x + BitVec.ofNat 32 a + BitVec.ofNat 32 b = x + BitVec.ofNat 32 (a + b) := by
+  apply BitVec.eq_of_toNat_eq
+  simp only [BitVec.toNat_add, BitVec.toNat_ofNat]
+  omega
+theorem add_lit (x : Word) (a : Nat) : x + BitVec.ofNat 32 a = x + BitVec.ofNat 32 (0 + a) := by rw [Nat.zero_add]
+theorem add_lit_toNat (x : Word) (a : Nat) (h : x.toNat + a < 2 ^ 32) : (x + BitVec.ofNat 32 a).toNat = x.toNat + a := by
+  simp only [BitVec.toNat_add, BitVec.toNat_ofNat]
+  omega
+theorem ofNat_toNat_add (x : Word) (a : Nat) : BitVec.ofNat 32 (x.toNat + a) = x + BitVec.ofNat 32 a := by
+  apply BitVec.eq_of_toNat_eq
+  simp only [BitVec.toNat_add, BitVec.toNat_ofNat]
+  omega
+
 macro "t1m_sym" " [" extra:Lean.Parser.Tactic.simpLemma,* "]" loc:(Lean.Parser.Tactic.location)? : tactic =>
   `(tactic| simp (maxSteps := 4000000) (disch := t1_disch) only [runL_cons_mk, runL_nil, runL_append,
     List.cons_append, List.nil_append, List.append_assoc,
     exec_addsReg', exec_adcs', exec_eors', exec_muls, exec_uxth, exec_lsls16, exec_lsls15, exec_lsrs16, exec_lsrs1, exec_movHi, exec_movLo,
-    exec_ldrImm, exec_strImm, exec_addSpImm, exec_incSp, exec_decSp, exec_ldm, exec_stm, exec_push, exec_pop, exec_bx',
+    exec_ldrImm, exec_strImm, exec_addSpImm, exec_incSp, exec_decSp, exec_ldm, exec_stm, exec_push, exec_pop, exec_bx', exec_push_lr, exec_pop_pc,
+    add_sub_lit, add_sub_lit_self, add_add_lit, add_lit_toNat, ofNat_toNat_add,
     loadMany_nil, loadMany_cons, storeMany_nil, storeMany_cons, leave_thumb,
     State.get, State.set, State.next, State.setFlags, State.setNZ, List.map_cons, List.map_nil, List.length_cons, List.length_nil,
     load_ok, store_ok, ofNat_toNat_lt, sub_lit_toNat, restore_sp, BitVec.xor_self, Nat.mod_eq_of_lt,
